@@ -438,6 +438,10 @@ func writeComputedFieldExpression(w *formatting.IndentedWriter, expression dsl.E
 					// ** binds more tightly than a unary minus on its left in Python
 					requiresParentheses = true
 				}
+				if t.Operator == dsl.BinaryOpPow && isNegativeLiteral(t.Left) {
+					// the same holds for the sign of a negative literal
+					requiresParentheses = true
+				}
 
 				if requiresParentheses {
 					w.WriteString("(")
@@ -1229,4 +1233,14 @@ func getTypeSyntaxWithGenricArgsReadFromTupleArgs(t dsl.Type, context dTypeExpre
 	}
 
 	return f.ToSyntax(t, context.namespace)
+}
+
+func isNegativeLiteral(expression dsl.Expression) bool {
+	switch e := expression.(type) {
+	case *dsl.IntegerLiteralExpression:
+		return e.Value.Sign() < 0
+	case *dsl.FloatingPointLiteralExpression:
+		return strings.HasPrefix(e.Value, "-")
+	}
+	return false
 }
